@@ -299,14 +299,37 @@ func genC04(t *rapid.T) (C04Case, bool) {
 		switch kind {
 		case "comments":
 			for _, q := range p.AllPackages() {
+				// every documentation comment is independently set, changed or removed (a documented
+				// element next to an undocumented one, in either nesting order)
+				pick := func(label, text string) string {
+					switch rapid.IntRange(0, 2).Draw(t, label) {
+					case 0:
+						return ""
+					case 1:
+						return text
+					}
+					return text + "\n(second line)"
+				}
 				for _, d := range q.Defs {
-					d.Comment = "new comment on " + d.Name
+					d.Comment = pick("defComment", "new comment on "+d.Name)
 					for i := range d.Fields {
-						d.Fields[i].Comment = "changed\nagain"
+						d.Fields[i].Comment = pick("fieldComment", "changed")
 					}
 					for i := range d.Values {
-						d.Values[i].Comment = "sym comment"
+						d.Values[i].Comment = pick("symComment", "sym comment")
 					}
+					for i := range d.Computed {
+						d.Computed[i].Comment = pick("cfComment", "computed comment")
+					}
+					model.DefTypes(d, func(ty *model.Type) {
+						model.Walk(ty, func(x *model.Type) {
+							if x.Kind == model.KArray && x.HasDims {
+								for i := range x.Dims {
+									x.Dims[i].Comment = pick("dimComment", "documented dimension")
+								}
+							}
+						})
+					})
 				}
 			}
 		case "computed":
